@@ -261,3 +261,31 @@ def c13(tier, seed):
     run.add_bounded("TOML files vs constructor twins", BF.toml_family(seed, _n(tier, 500, 15000)))
     run.trusted.add("toml.load / toml.dump")
     return run.finish()
+
+
+# ================================================================================================================ C17 / C18 / C19
+def c17(tier, seed):
+    run = Run("C17", tier, seed, "other", "bin/check C17 --tier " + tier)
+    from . import system_layer as SL
+    SL.frame(run); SL.batt_life(run, "C17")
+    from bounded import families as BF
+    run.add_bounded("analysis interleavings (snapshot before the first analysis)", BF.analysis_family(seed, _n(tier, 160, 5000)))
+    run.add_bounded("batt_life restoration", BF.battlife_family(seed + 1, _n(tier, 100, 3000)))
+    return run.finish()
+
+
+def c18(tier, seed):
+    run = Run("C18", tier, seed, "other", "bin/check C18 --tier " + tier)
+    from . import system_layer as SL
+    SL.batt_life(run, "C18")
+    from bounded import families as BF
+    run.add_bounded("batt_life steps vs independent solves", BF.battlife_family(seed, _n(tier, 300, 8000)))
+    return run.finish()
+
+
+def c19(tier, seed):
+    run = Run("C19", tier, seed, "exploration", "bin/check C19 --tier " + tier)
+    from bounded import diagrams as DG
+    run.add_bounded("Graphviz JSON read-back of make_diag / make_hdiag", DG.diagram_family(seed, _n(tier, 150, 4000)))
+    run.notes.append("pydot / Graphviz / matplotlib / pandas: no obligation within P reach; decided bounded only")
+    return run.finish()
